@@ -575,6 +575,9 @@ class Executor:
             return self.const(st, s[6:])
         if re.match(r"^_\d+$", s):
             return self.read_place(st, fid, s)
+        if re.match(r"^[A-Za-z_<][\w:<>, '&\[\]#{}@./-]*$", s):
+            # a function item (zero-sized constant) handed to a higher-order function
+            return Const("fn-item:" + s)
         raise Unsupported("operand: " + s)
 
     def binop(self, op, a, b):
